@@ -31,10 +31,16 @@ package pc16
 //     so for such plans Start's verdict is not judged.
 //   * Checks.Delay == 0 is documented "defaults to 30 seconds" but the statement lists no such default: a submitted
 //     zero delay is not compared.
-//   * "a registered plugin that accepts its request" is judged on the request as Submit presents it to the plugin:
-//     Submit is the caller of ValidateReq and calls Defaults() on every request object that has such a method first
-//     (requestDefaults precedes Validate). This is caller behaviour, not statement text; the reference applies
-//     Defaults() to a *copy* of the request (never to the submitted object) before asking the plugin.
+//   * "a registered plugin that accepts its request": whether Submit applies a request's own Defaults() before it asks
+//     the plugin is in no statement. A request that the plugin accepts only once defaulted (a *DReq with a zero Mode)
+//     makes the plan *not judged* in either direction, like the pre-set registry (labels dreq:zero:accepted /
+//     dreq:zero:rejected). The consequences of the verdict are still checked; an accepted plan's stored request must
+//     be one the plugin accepts as stored, and must equal the submitted request either as submitted or as defaulted.
+//   * the *values* of defaults are not in the statement either: for a submitted timeout of 0 any stored timeout of at
+//     least five seconds is fine ("zero meaning the default", "at least five seconds"); a stored Retries / Concurrency
+//     may be the submitted value or the clamped one (max(0, r) / max(1, c)) — Submit need not materialise them.
+//   * "leaves nothing in storage" is observed as "the row count of every user table of the sqlite file is unchanged";
+//     the tables are discovered from sqlite_master, no table name is assumed.
 
 import (
 	"bytes"
@@ -43,6 +49,7 @@ import (
 	"reflect"
 	"runtime"
 	"sort"
+	"strings"
 	"sync/atomic"
 	"testing"
 	"time"
@@ -144,6 +151,9 @@ var (
 	letters      = []rune("abcdefghijklmnopqrstuvwxyzABCDEFGHIJKLMNOPQRSTUVWXYZ0123456789éßñøçÅжЯλΩ日本語한אب")
 	lettersSpace = append(append([]rune{}, letters...), ' ', ' ', '-', '_', '.')
 	validTimeout = []int64{0, 0, int64(5 * time.Second), int64(5*time.Second) + 1, int64(6 * time.Second), int64(30 * time.Second), int64(10 * time.Minute), int64(24 * time.Hour)}
+	// request flavours (ActionShape.Dflt): mostly the plain plugins; the zero-Mode flavour (1) makes a plan not judged on
+	// the iff, so it is kept rare (roughly one plan in four carries one)
+	dfltFlavours = []int{0, 0, 0, 0, 0, 0, 0, 0, 2, 3, 1, 2, 3, 0, 0, 0, 0, 0, 0, 0, 0, 0, 0, 0}
 	validDelay   = []int64{0, int64(time.Millisecond), int64(30 * time.Second), int64(time.Hour)}
 )
 
@@ -162,7 +172,7 @@ func genAction(t *rapid.T, label string) ActionShape {
 		Retries: rapid.IntRange(-3, 3).Draw(t, label+".retries"),
 		HasKey:  rapid.Bool().Draw(t, label+".key"),
 		Arg:     rapid.SampledFrom([]string{"", "a", "x y", "日本"}).Draw(t, label+".arg"),
-		Dflt:    rapid.SampledFrom([]int{0, 0, 0, 0, 0, 0, 0, 0, 0, 1, 2, 3}).Draw(t, label+".dflt"),
+		Dflt:    rapid.SampledFrom(dfltFlavours).Draw(t, label+".dflt"),
 	}
 }
 
@@ -797,9 +807,9 @@ func applyMutation(p *workflow.Plan, m Mutation, salt uint32, k int) string {
 		if !ok {
 			return ""
 		}
-		if v%2 == 1 { // the non-check plugin whose request relies on Defaults()
+		if v%2 == 1 { // the non-check plugin with the pointer request; v%4 == 3: relying on its Defaults() (not judged)
 			n.action.Plugin = dWorkPlugName
-			n.action.Req = &DReq{Arg: "dwork-in-checks"}
+			n.action.Req = &DReq{Arg: "dwork-in-checks", Mode: [...]string{"manual", "auto", "manual", ""}[v%4]}
 		} else {
 			n.action.Plugin = workPlugName
 			n.action.Req = ReqWork{Arg: "work-in-checks", N: v}
@@ -852,6 +862,9 @@ type refVerdict struct {
 	// requests with Defaults() given to the plugins that take them: Mode left zero (acceptable only once defaulted),
 	// spelled out and valid, invalid whatever Defaults() does.
 	dreqZero, dreqSpelled, dreqInvalid int
+	// defaultsDependent: some action's request is accepted by its plugin only after the request's own Defaults() ran
+	// (or only before). Whether Submit defaults first is not in the statement: such a plan is not judged.
+	defaultsDependent bool
 
 	keys map[uuid.UUID]bool
 	reg  map[string]plugins.Plugin
@@ -902,13 +915,21 @@ func (r *refVerdict) key(k uuid.UUID) {
 	r.keys[k] = true
 }
 
-// presented returns the request as Submit presents it to the plugin: Submit calls Defaults() on every request object
-// that has such a method before it validates the plan (see the header). The submitted object itself is never touched
-// here — a copy is defaulted — so the reference cannot do Submit's work for it.
+// presented returns the request with its own Defaults() applied, if it has such a method. The submitted object itself
+// is never touched here — a copy is defaulted — so the reference cannot do Submit's work for it.
 func presented(req any) any {
 	if d, ok := req.(*DReq); ok && d != nil {
 		c := *d
 		c.Defaults()
+		return &c
+	}
+	return req
+}
+
+// asIs returns a private copy of the request exactly as submitted (Submit may default the submitted object in place).
+func asIs(req any) any {
+	if d, ok := req.(*DReq); ok && d != nil {
+		c := *d
 		return &c
 	}
 	return req
@@ -935,8 +956,14 @@ func (r *refVerdict) action(a *workflow.Action, inChecks bool) {
 	if plug == nil {
 		r.bad("plugin-unknown")
 	} else {
-		if plug.ValidateReq(presented(a.Req)) != nil {
-			r.bad("req-rejected")
+		asSubmitted := plug.ValidateReq(asIs(a.Req)) == nil
+		asDefaulted := plug.ValidateReq(presented(a.Req)) == nil
+		switch {
+		case asSubmitted && asDefaulted:
+		case !asSubmitted && !asDefaulted:
+			r.bad("req-rejected") // refused under either reading
+		default:
+			r.defaultsDependent = true // see the header: not judged
 		}
 		if d, ok := a.Req.(*DReq); ok && d != nil && isDPlug(a.Plugin) {
 			switch {
@@ -1054,7 +1081,9 @@ type snapAction struct {
 	Timeout             time.Duration
 	Retries             int
 	Key                 uuid.UUID
-	Req                 any
+	// Req is the request as submitted (a copy), ReqDef the same with its own Defaults() applied.
+	Req    any
+	ReqDef any
 }
 
 type snapChecks struct {
@@ -1088,9 +1117,7 @@ type snapPlan struct {
 func snapActions(as []*workflow.Action) []snapAction {
 	var out []snapAction
 	for _, a := range as {
-		// Req: the request as presented to the plugin = the submitted one with its own Defaults() applied (a copy:
-		// Submit mutates the submitted object in place)
-		out = append(out, snapAction{Name: a.Name, Descr: a.Descr, Plugin: a.Plugin, Timeout: a.Timeout, Retries: a.Retries, Key: a.Key, Req: presented(a.Req)})
+		out = append(out, snapAction{Name: a.Name, Descr: a.Descr, Plugin: a.Plugin, Timeout: a.Timeout, Retries: a.Retries, Key: a.Key, Req: asIs(a.Req), ReqDef: presented(a.Req)})
 	}
 	return out
 }
@@ -1123,6 +1150,8 @@ func snapshot(p *workflow.Plan) *snapPlan {
 type acceptedChecker struct {
 	res *vprop.Result
 	ids map[uuid.UUID]string
+	// reg: reference instances of the registered plugins
+	reg map[string]plugins.Plugin
 }
 
 // "an accepted plan receives fresh pairwise-distinct v7 ids, a pristine NotStarted state on every object"
@@ -1167,24 +1196,27 @@ func (ac *acceptedChecker) actions(path string, got []*workflow.Action, want []s
 		if a.Name != w.Name || a.Descr != w.Descr || a.Plugin != w.Plugin || a.Key != w.Key {
 			ac.res.Fail("C16/accepted:definition", "%s: stored name/descr/plugin/key %q/%q/%q/%s, submitted %q/%q/%q/%s", ap, a.Name, a.Descr, a.Plugin, a.Key, w.Name, w.Descr, w.Plugin, w.Key)
 		}
-		if !reflect.DeepEqual(a.Req, w.Req) {
-			ac.res.Fail("C16/accepted:definition-req", "%s: stored request %s, submitted (with its Defaults() applied) %s", ap, showReq(a.Req), showReq(w.Req))
+		// the stored request is the submitted one — as submitted or with its own Defaults() applied (see the header)
+		if !reflect.DeepEqual(a.Req, w.Req) && !reflect.DeepEqual(a.Req, w.ReqDef) {
+			ac.res.Fail("C16/accepted:definition-req", "%s: stored request %s, submitted %s (with its Defaults() applied: %s)", ap, showReq(a.Req), showReq(w.Req), showReq(w.ReqDef))
 		}
-		// "(zero meaning the default)": the documented default is 30 seconds
-		wantTimeout := w.Timeout
-		if wantTimeout == 0 {
-			wantTimeout = 30 * time.Second
+		// "every action naming a registered plugin that accepts its request": holds for the accepted plan as stored
+		if pl := ac.reg[a.Plugin]; pl != nil {
+			if err := pl.ValidateReq(a.Req); err != nil {
+				ac.res.Fail("C16/accepted:stored-req-refused", "%s: the stored request %s of the accepted plan is refused by plugin %q: %v", ap, showReq(a.Req), a.Plugin, err)
+			}
 		}
-		if a.Timeout != wantTimeout {
-			ac.res.Fail("C16/accepted:timeout", "%s: stored timeout %v, submitted %v (want %v)", ap, a.Timeout, w.Timeout, wantTimeout)
+		// "timeouts of at least five seconds (zero meaning the default)": a non-zero timeout is kept; for a submitted
+		// zero the statement fixes no value, only that the result is a timeout of at least five seconds
+		switch {
+		case w.Timeout != 0 && a.Timeout != w.Timeout:
+			ac.res.Fail("C16/accepted:timeout", "%s: stored timeout %v, submitted %v", ap, a.Timeout, w.Timeout)
+		case w.Timeout == 0 && a.Timeout < 5*time.Second:
+			ac.res.Fail("C16/accepted:timeout", "%s: stored timeout %v for a submitted 0 (want a default of at least 5s)", ap, a.Timeout)
 		}
-		// documented default (DESIGN §5 C16): retries < 0 -> 0
-		wantRetries := w.Retries
-		if wantRetries < 0 {
-			wantRetries = 0
-		}
-		if a.Retries != wantRetries {
-			ac.res.Fail("C16/accepted:retries", "%s: stored retries %d, submitted %d (want %d)", ap, a.Retries, w.Retries, wantRetries)
+		// retries: the submitted value, or clamped at 0 (no statement makes Submit materialise the clamp)
+		if a.Retries != w.Retries && a.Retries != max(0, w.Retries) {
+			ac.res.Fail("C16/accepted:retries", "%s: stored retries %d, submitted %d", ap, a.Retries, w.Retries)
 		}
 	}
 }
@@ -1245,13 +1277,9 @@ func (ac *acceptedChecker) plan(p *workflow.Plan, want *snapPlan) {
 		if b.Name != wb.Name || b.Descr != wb.Descr || b.Key != wb.Key || b.ToleratedFailures != wb.Tolerated {
 			ac.res.Fail("C16/accepted:definition", "%s: stored name/descr/key/tolerated %q/%q/%s/%d, submitted %q/%q/%s/%d", bp, b.Name, b.Descr, b.Key, b.ToleratedFailures, wb.Name, wb.Descr, wb.Key, wb.Tolerated)
 		}
-		// documented default (DESIGN §5 C16): concurrency < 1 -> 1
-		wantConc := wb.Concurrency
-		if wantConc < 1 {
-			wantConc = 1
-		}
-		if b.Concurrency != wantConc {
-			ac.res.Fail("C16/accepted:concurrency", "%s: stored concurrency %d, submitted %d (want %d)", bp, b.Concurrency, wb.Concurrency, wantConc)
+		// concurrency: the submitted value, or raised to 1 ("1 when unset" may be applied at Submit or where it is used)
+		if b.Concurrency != wb.Concurrency && b.Concurrency != max(1, wb.Concurrency) {
+			ac.res.Fail("C16/accepted:concurrency", "%s: stored concurrency %d, submitted %d", bp, b.Concurrency, wb.Concurrency)
 		}
 		ac.groups(bp, blockGroups(b), wb.Groups)
 		if len(b.Sequences) != len(wb.Seqs) {
@@ -1277,19 +1305,37 @@ func (ac *acceptedChecker) plan(p *workflow.Plan, want *snapPlan) {
 // ---------------------------------------------------------------------------------------------------------------------
 // storage observation and life-cycle helpers
 
-var tableNames = [5]string{"plans", "blocks", "checks", "sequences", "actions"}
-
-// rowCounts counts the rows of the five tables of the sqlite vault (Pool() is available in test binaries).
-func rowCounts(ctx context.Context, v *sqlite.Vault) (counts [5]int64, err error) {
+// rowCounts counts the rows of every user table of the sqlite vault (Pool() is available in test binaries). The tables
+// are discovered from sqlite_master: no table name of today's schema is assumed.
+func rowCounts(ctx context.Context, v *sqlite.Vault) (counts map[string]int64, err error) {
 	conn, err := v.Pool().Take(ctx)
 	if err != nil {
-		return counts, err
+		return nil, err
 	}
 	defer v.Pool().Put(conn)
-	const q = `SELECT (SELECT COUNT(*) FROM plans), (SELECT COUNT(*) FROM blocks), (SELECT COUNT(*) FROM checks), (SELECT COUNT(*) FROM sequences), (SELECT COUNT(*) FROM actions)`
+	var names []string
+	err = sqlitex.ExecuteTransient(conn, `SELECT name FROM sqlite_master WHERE type = 'table' AND name NOT LIKE 'sqlite_%' ORDER BY name`,
+		&sqlitex.ExecOptions{ResultFunc: func(stmt *zsqlite.Stmt) error {
+			names = append(names, stmt.ColumnText(0))
+			return nil
+		}})
+	if err != nil {
+		return nil, err
+	}
+	if len(names) == 0 {
+		return nil, fmt.Errorf("the sqlite file has no user table")
+	}
+	q := "SELECT "
+	for i, n := range names {
+		if i > 0 {
+			q += ", "
+		}
+		q += `(SELECT COUNT(*) FROM "` + strings.ReplaceAll(n, `"`, `""`) + `")`
+	}
+	counts = map[string]int64{}
 	err = sqlitex.ExecuteTransient(conn, q, &sqlitex.ExecOptions{ResultFunc: func(stmt *zsqlite.Stmt) error {
-		for i := range counts {
-			counts[i] = stmt.ColumnInt64(i)
+		for i, n := range names {
+			counts[n] = stmt.ColumnInt64(i)
 		}
 		return nil
 	}})
@@ -1384,7 +1430,7 @@ func checkSubmit(c SubmitCase) (res vprop.Result) {
 	if ref.dreqZero > 0 {
 		res.Label("dreq:zero")
 		if wellFormed {
-			// the class that needs Submit to default requests before it validates them
+			// otherwise well-formed, with a request that is acceptable only once defaulted: the not-judged class
 			res.Label("dreq:zero:well-formed")
 		}
 	}
@@ -1407,25 +1453,32 @@ func checkSubmit(c SubmitCase) (res vprop.Result) {
 	earlierIDs := map[uuid.UUID]bool{}
 	if c.Baseline {
 		res.Label("baseline")
-		bid, berr, bpanic := trySubmit(ctx, ws, buildPlan(c))
-		if berr != nil || bpanic != nil {
+		bplan := buildPlan(c)
+		bref := reference(bplan)
+		bid, berr, bpanic := trySubmit(ctx, ws, bplan)
+		switch {
+		case (berr != nil || bpanic != nil) && bref.defaultsDependent:
+			// a valid plan whose requests rely on their Defaults(): its rejection is not judged (see the header)
+			res.Label("baseline:rejected-unjudged")
+		case berr != nil || bpanic != nil:
 			res.Fail("C16/iff:rejected-well-formed", "Submit rejected the unmutated valid plan (baseline): err=%v panic=%v", berr, bpanic)
 			return res
-		}
-		bp, err := ws.Plan(ctx, bid)
-		if err != nil || bp == nil {
-			res.Fail("C16/accepted:unreadable", "accepted baseline plan %s cannot be read back: %v", bid, err)
-			return res
-		}
-		for _, n := range enumerate(bp) {
-			earlierIDs[*n.idPtr()] = true
+		default:
+			bp, err := ws.Plan(ctx, bid)
+			if err != nil || bp == nil {
+				res.Fail("C16/accepted:unreadable", "accepted baseline plan %s cannot be read back: %v", bid, err)
+				return res
+			}
+			for _, n := range enumerate(bp) {
+				earlierIDs[*n.idPtr()] = true
+			}
 		}
 	}
 
 	before, err := rowCounts(ctx, vault)
 	if err != nil {
 		res.Skip = true
-		res.Label("setup-error")
+		res.Label("row-count-failed")
 		return res
 	}
 
@@ -1457,6 +1510,22 @@ func checkSubmit(c SubmitCase) (res vprop.Result) {
 			res.Label("preset-registry:rejected")
 		}
 	}
+	if ref.defaultsDependent && wellFormed {
+		// a request that is acceptable only once defaulted: not judged (see header)
+		judged = false
+		if accepted {
+			res.Label("dreq:zero:accepted")
+		} else {
+			res.Label("dreq:zero:rejected")
+		}
+	}
+	if wellFormed {
+		if judged {
+			res.Label("well-formed:judged")
+		} else {
+			res.Label("well-formed:not-judged")
+		}
+	}
 	if judged && accepted && !wellFormed {
 		res.Fail("C16/iff:accepted-ill-formed:"+ref.reasons[0], "Submit accepted a plan that is not well formed: %v", ref.reasons)
 	}
@@ -1468,11 +1537,13 @@ func checkSubmit(c SubmitCase) (res vprop.Result) {
 		// "A rejected plan leaves nothing in storage"
 		after, err := rowCounts(ctx, vault)
 		if err != nil {
-			res.Fail("C16/rejected:storage-unreadable", "cannot count rows after a rejected Submit: %v", err)
+			// not being able to count says nothing about the clause
+			res.Skip = true
+			res.Label("row-count-failed")
 			return res
 		}
-		if after != before {
-			res.Fail("C16/rejected:storage-changed", "rejected Submit (err=%v panic=%v) changed the row counts %v of %v from %v to %v", serr, panicked, tableNames, tableNames, before, after)
+		if !reflect.DeepEqual(after, before) {
+			res.Fail("C16/rejected:storage-changed", "rejected Submit (err=%v panic=%v) changed the row counts of the tables from %v to %v", serr, panicked, before, after)
 		}
 		return res
 	}
@@ -1487,7 +1558,7 @@ func checkSubmit(c SubmitCase) (res vprop.Result) {
 		res.Fail("C16/accepted:unreadable", "accepted plan %s cannot be read back: %v", id, err)
 		return res
 	}
-	ac := &acceptedChecker{res: &res, ids: map[uuid.UUID]string{}}
+	ac := &acceptedChecker{res: &res, ids: map[uuid.UUID]string{}, reg: ref.reg}
 	ac.plan(stored, snap)
 	// "fresh … ids": none of them was handed out to the plan submitted before
 	for id, path := range ac.ids {
